@@ -7,7 +7,7 @@ independent encoder (harness/wire.py):
   * responses (stream id >= 0): READY / RESULT void / ERROR / RESULT set_keyspace / RESULT rows, chosen so
     that the body has exactly `blen` bytes; frame i uses its own stream id, and a recording handler is
     registered for it in conn._requests exactly as send_msg() would do (callback, decoder, result_metadata);
-  * pushes (stream id -1): EVENT STATUS_CHANGE / TOPOLOGY_CHANGE with an address that names the frame;
+  * pushes (any negative stream id of the header's width, `sid`): EVENT STATUS_CHANGE / TOPOLOGY_CHANGE with an address that names the frame;
     recording watchers sit in conn._push_watchers.
 
 Read(k) is what every reactor's read handler does: conn._iobuf.write(chunk); conn.process_io_buffer().
@@ -126,10 +126,10 @@ def stream_for(ver, idx):
 class RealFrame:
     __slots__ = ("idx", "ver", "neg", "blen", "stream", "opcode", "body", "expect", "raw")
 
-    def __init__(self, idx, ver, neg, blen):
+    def __init__(self, idx, ver, neg, blen, sid=-1):
         self.idx, self.ver, self.neg, self.blen = idx, ver, neg, blen
         if neg:
-            self.stream = -1
+            self.stream = sid           # any negative id of the header's width marks a server push
             self.opcode, self.body, self.expect = neg_body(idx, blen)
         else:
             self.stream = stream_for(ver, idx)
@@ -139,7 +139,8 @@ class RealFrame:
 
 
 def build_frames(frames):
-    return [RealFrame(i + 1, int(f["ver"]), bool(f["neg"]), int(f["blen"])) for i, f in enumerate(frames)]
+    return [RealFrame(i + 1, int(f["ver"]), bool(f["neg"]), int(f["blen"]), int(f.get("sid", -1) or -1))
+            for i, f in enumerate(frames)]
 
 
 # ------------------------------------------------------------------ observation of one connection
@@ -212,10 +213,11 @@ class Recorder:
             except Exception:
                 f, change = None, None
             seen = self.msgs[-1] if self.msgs else None
-            ok = (f is not None and seen is not None and seen == (f.ver, -1, f.opcode, f.body)
+            ok = (f is not None and seen is not None and seen == (f.ver, f.stream, f.opcode, f.body)
                   and (event_type, change) == f.expect[:2])
             idx = f.idx if f is not None else 0
-            self.pushed.append({"idx": idx, "stream": -1, "len": len(seen[3]) if seen else -1, "exact": bool(ok)})
+            self.pushed.append({"idx": idx, "stream": f.stream if f is not None else -999,
+                                "len": len(seen[3]) if seen else -1, "exact": bool(ok)})
             self.order.append(idx)
         return cb
 
@@ -317,9 +319,10 @@ def random_frames(rng, max_frames, vers, pos_lens, neg_lens, mixed=True):
     for _ in range(n):
         ver = rng.choice(vers) if (mixed and rng.random() < 0.3) else v0
         if rng.random() < 0.3:
-            out.append({"ver": ver, "neg": True, "blen": rng.choice(neg_lens)})
+            out.append({"ver": ver, "neg": True, "blen": rng.choice(neg_lens),
+                        "sid": rng.choice([-1, -1, -2, -3, -100, -128] + ([] if ver <= 2 else [-129, -256, -32768]))})
         else:
-            out.append({"ver": ver, "neg": False, "blen": rng.choice(pos_lens)})
+            out.append({"ver": ver, "neg": False, "blen": rng.choice(pos_lens), "sid": 0})
     return out
 
 
